@@ -259,6 +259,21 @@ fn run_redact(ver: u32, because: Option<CanonicalJsonObject>, ev: CanonicalJsonO
                 }
                 Err(_) => t3.push("redacting a redacted event failed".into()),
             }
+            // `unsigned` of the result: absent without a reason; with a reason exactly
+            // `{"redacted_because": <the reason>}` — whatever `unsigned` the input carried
+            match (&because, out.get("unsigned")) {
+                (None, None) => {}
+                (None, Some(_)) => t3.push("`unsigned` survives a redaction without a reason".into()),
+                (Some(b), Some(CanonicalJsonValue::Object(u))) => {
+                    if u.len() != 1 || u.get("redacted_because") != Some(&CanonicalJsonValue::Object(b.clone())) {
+                        t3.push(format!(
+                            "`unsigned` of the redacted event is not exactly {{\"redacted_because\": <reason>}}: keys {:?}",
+                            u.keys().collect::<Vec<_>>()
+                        ));
+                    }
+                }
+                (Some(_), _) => t3.push("the requested `unsigned.redacted_because` was not attached".into()),
+            }
             // nothing added, values untouched at top level
             for (k, v) in &out {
                 if k == "unsigned" && because.is_some() {
